@@ -319,7 +319,6 @@ func phiEdgeKnownEmpty(phi *ssa.Phi, i int) bool {
 	return pred.Succs[eqSucc] == phi.Block()
 }
 
-
 // phiEdgeFailed: edge i of phi is only taken when an error value e is non-nil (the branch that leads to the edge
 // – through blocks with a single predecessor – tested e against nil and took the non-nil side), that same e is
 // edge i of a sibling error phi E of the block, and E is tested against nil later in the function. Success returns
